@@ -387,12 +387,13 @@ struct LoopMeta { int id; std::string func, linkage; unsigned line; int bound; }
 static std::vector<LoopMeta> loopMetas;
 // Attribute a loop to the source function whose text contains the loop statement: the deepest inlined frame that
 // contains every instruction of the loop; line = smallest line the loop touches in that frame.
+static std::map<const Loop *, std::string> loopOwner;
 static int loopBound(const Loop *L, std::string &who) {
     who = "?"; std::string linkage; unsigned line = 0;
     std::vector<const DILocation *> common; bool have = false; // chain of inlined-at call sites, outermost first
     std::vector<std::vector<const DILocation *>> chains; std::vector<const DILocation *> locs;
     for (BasicBlock *B : L->blocks()) for (Instruction &I : *B) {
-        const DILocation *D = I.getDebugLoc().get(); if (!D) continue;
+        const DILocation *D = I.getDebugLoc().get(); if (!D || D->getLine() == 0 || isa<PHINode>(I)) continue; // line 0 = merged location: says nothing about the owner
         std::vector<const DILocation *> ch; for (const DILocation *P = D->getInlinedAt(); P; P = P->getInlinedAt()) ch.push_back(P);
         std::reverse(ch.begin(), ch.end());
         chains.push_back(ch); locs.push_back(D);
@@ -408,9 +409,17 @@ static int loopBound(const Loop *L, std::string &who) {
         }
         line = best; if (SP) { who = SP->getName().str(); linkage = SP->getLinkageName().str(); }
     }
+    // nesting depth among the loops of the same function instance: name#0 is the outermost loop of that function, name#1 the next...
+    { std::string owner = who + "/" + std::to_string((uintptr_t)(common.empty() ? nullptr : common.back())); loopOwner[L] = owner;
+      int depth = 0; for (const Loop *P = L->getParentLoop(); P; P = P->getParentLoop()) { auto it = loopOwner.find(P); if (it != loopOwner.end() && it->second == owner) ++depth; }
+      who += "#" + std::to_string(depth); }
     std::string key = who + ":" + std::to_string(line) + "@" + linkage;
     int bd = boundDefault;
-    for (auto &kv : boundSpec) if (key.find(kv.first) != std::string::npos) { bd = kv.second; break; }
+    for (auto &kv : boundSpec) { // pattern: substrings joined by '&' must all occur in "name#depth:line@linkage"
+        bool all = true; std::stringstream ps(kv.first); std::string part;
+        while (std::getline(ps, part, '&')) if (key.find(part) == std::string::npos) { all = false; break; }
+        if (all) { bd = kv.second; break; }
+    }
     who = who + ":" + std::to_string(line);
     return bd;
 }
@@ -515,7 +524,8 @@ static void emitFunction(Function &F, raw_ostream &O) {
     O << sig << " {\n";
     for (Instruction &I : instructions(F)) if (auto *CB = dyn_cast<CallBase>(&I)) if (CB->getCalledFunction() && CB->getCalledFunction()->getName() == "__VERIFIER_freeze") { monitorOn = true; const Value *P = CB->getArgOperand(0); while (auto *BC = dyn_cast<BitCastOperator>(P)) P = BC->getOperand(0); Path FP = resolve(X, P); if (FP.ok) frozenRoots.insert(FP.root); else { errs() << "freeze target not resolvable\n"; exit(2); } }
     DominatorTree DT(F); LoopInfo LI(DT); loopHeader.clear();
-    { int id = 0; for (Loop *L : LI.getLoopsInPreorder()) { loopHeader[L->getHeader()] = {id, L}; O << "    int lc" << id << " = 0;\n"; ++id; } }
+    static std::map<const Loop *, std::pair<int, std::string>> loopBd; loopBd.clear(); loopOwner.clear();
+    { int id = 0; for (Loop *L : LI.getLoopsInPreorder()) { loopHeader[L->getHeader()] = {id, L}; std::string who; int bd = loopBound(L, who); loopBd[L] = {bd, who}; O << "    int lc" << id << " = 0;\n"; ++id; } }
     // pointer phis whose incoming values all resolve to one skeleton become index phis
     for (int round = 0; round < 4; ++round)
     for (Instruction &I : instructions(F)) {
@@ -570,7 +580,7 @@ static void emitFunction(Function &F, raw_ostream &O) {
         BasicBlock &B = *item.first;
         if (!first) O << "  " << blockLabel(X, &B) << ":;\n";
         first = false;
-        { auto it = loopHeader.find(&B); if (it != loopHeader.end()) { std::string who; int bd = loopBound(it->second.second, who); loopMetas.push_back({it->second.first, who, "", 0, bd}); O << "    if (++lc" << it->second.first << " > " << bd << ") { __CPROVER_assert(0, \"unwinding bound " << bd << " of loop in " << who << "\"); __CPROVER_assume(0); goto L__cut; }\n"; } }
+        { auto it = loopHeader.find(&B); if (it != loopHeader.end()) { std::string who = loopBd[it->second.second].second; int bd = loopBd[it->second.second].first; loopMetas.push_back({it->second.first, who, "", 0, bd}); O << "    if (++lc" << it->second.first << " > " << bd << ") { __CPROVER_assert(0, \"unwinding bound " << bd << " of loop in " << who << "\"); __CPROVER_assume(0); goto L__cut; }\n"; } }
         for (Instruction &I : B) {
             std::string r = I.getType()->isVoidTy() ? "" : val(X, &I);
             if (isa<PHINode>(I) || isa<AllocaInst>(I)) continue;
